@@ -466,7 +466,7 @@ def failover_case(rng, tier):
     for i in range(rng.randint(1, 4)):
         k = rng.choice(keys)
         P["tail"].append({"typ": 3, "key": k, "value": "t%d" % i} if rng.random() < 0.4 else {"typ": 1, "key": k})
-    P["walk"] = {"seed": rng.randrange(1, 2 ** 31), "n": rng.randint(140, 260) if tier == "quick" else rng.randint(200, 600),
+    P["walk"] = {"seed": rng.randrange(1, 2 ** 31), "n": rng.randint(100, 200) if tier == "quick" else rng.randint(200, 600),
                  "pcrash": rng.choice([0.0, 0.0, 0.01]), "pcrashp": rng.choice([0.0, 0.05, 0.15]), "frozen_n": rng.randint(40, 120)}
     return failover_scenario(P)
 
@@ -485,7 +485,7 @@ def failover_grid():
                         continue              # nobody has the PUT_REQ before the crash
                     P = {"nr": nr, "nc": 2, "follow": follow, "mode": mode, "fast": True,
                          "depth": {str(b): d for b in range(2, nr + 1)}, "pre": (len(out) % 3 == 2),
-                         "walk": {"seed": 1000 + len(out), "n": 110, "frozen_n": 45}}
+                         "walk": {"seed": 1000 + len(out), "n": 80, "frozen_n": 40}}
                     if mode == "snd":
                         P["j"] = x
                     else:
@@ -679,11 +679,15 @@ MANIFEST = {
              "crash-stops at label boundaries (3850-line inductive invariant: version/content agreement, prefix knowledge in replica order, counting of failover-sync "
              "tokens incl. stale ones, replication phase with dead backups); consistency_ok_failure_free (independent proof); "
              "pb_linearizable_failure_free_partial (failure-free executions, any N: linearizable, via a linearizing-monitor simulation); "
-             "assertion_free_failure_free_partial (failure-free executions, any N: no enabled step fails an assertion or a TLA+ evaluation); lin_checker_complete. "
+             "assertion_free_failure_free_partial (failure-free executions, any N: no enabled step fails an assertion or a TLA+ evaluation); "
+             "pb_linearizable_no_retry_partial (executions WITH crashes, any N, in which no client takes the rcvResp time-out branch (no_resend): linearizable; "
+             "monitor simulation on top of the crash invariant, a Put is linearized when every live replica holds it; non-vacuity: a Go-observed failover run); "
+             "lin_checker_complete. "
              "REFUTED (witness by vm_compute, replayed on the real Go code on every run, known findings): assertion_free_refuted (4 replicas: stale SYNC_RESP after a "
              "restarted failover sync fails the assertion of rcvSyncRespLoop) and pb_linearizable_refuted (a Put re-sent after the primary crashed is applied twice). "
              "Full statements kept as Definitions: consistency_ok_statement (= the proved theorem), assertion_free_statement, pb_linearizable_statement. "
-             "Not proved: linearizability of crash executions without retry; assertion-freedom of crash executions with at most 3 replicas."),
+             "Not proved: assertion-freedom of crash executions with at most 3 replicas; linearizability under the weaker hypothesis 'no request applied twice' "
+             "(re-sends of lost requests allowed)."),
     "level_note": ("Trusted: Coq kernel; the hand-written model, tied by running the REAL pbkvs.AReplica/AClient archetypes step by step under the real Run loop "
                    "(harness/steplib gate FairnessCounter) and comparing the full spec state with the model's after every attempt; the spec-state resources that "
                    "replace the deployment resources (mailboxes, FD, file system, leader election stub)."),
